@@ -58,6 +58,9 @@ isal_aes_cbc_enc_128(const void *in, const void *iv, const void *keys, void *out
                 return ISAL_CRYPTO_ERR_SELF_TEST;
 #endif
 
+        if (len_bytes == 0)
+                return 0;
+
         _aes_cbc_enc_128((void *) in, (uint8_t *) iv, (uint8_t *) keys, out, (uint64_t) len_bytes);
 
         return 0;
@@ -88,6 +91,9 @@ isal_aes_cbc_enc_192(const void *in, const void *iv, const void *keys, void *out
         if (isal_self_tests())
                 return ISAL_CRYPTO_ERR_SELF_TEST;
 #endif
+
+        if (len_bytes == 0)
+                return 0;
 
         _aes_cbc_enc_192((void *) in, (uint8_t *) iv, (uint8_t *) keys, out, (uint64_t) len_bytes);
 
@@ -120,6 +126,9 @@ isal_aes_cbc_enc_256(const void *in, const void *iv, const void *keys, void *out
                 return ISAL_CRYPTO_ERR_SELF_TEST;
 #endif
 
+        if (len_bytes == 0)
+                return 0;
+
         _aes_cbc_enc_256((void *) in, (uint8_t *) iv, (uint8_t *) keys, out, (uint64_t) len_bytes);
 
         return 0;
@@ -150,6 +159,9 @@ isal_aes_cbc_dec_128(const void *in, const void *iv, const void *keys, void *out
         if (isal_self_tests())
                 return ISAL_CRYPTO_ERR_SELF_TEST;
 #endif
+
+        if (len_bytes == 0)
+                return 0;
 
         _aes_cbc_dec_128((void *) in, (uint8_t *) iv, (uint8_t *) keys, out, (uint64_t) len_bytes);
 
@@ -182,6 +194,9 @@ isal_aes_cbc_dec_192(const void *in, const void *iv, const void *keys, void *out
                 return ISAL_CRYPTO_ERR_SELF_TEST;
 #endif
 
+        if (len_bytes == 0)
+                return 0;
+
         _aes_cbc_dec_192((void *) in, (uint8_t *) iv, (uint8_t *) keys, out, (uint64_t) len_bytes);
 
         return 0;
@@ -213,6 +228,9 @@ isal_aes_cbc_dec_256(const void *in, const void *iv, const void *keys, void *out
                 return ISAL_CRYPTO_ERR_SELF_TEST;
 #endif
 
+        if (len_bytes == 0)
+                return 0;
+
         _aes_cbc_dec_256((void *) in, (uint8_t *) iv, (uint8_t *) keys, out, (uint64_t) len_bytes);
 
         return 0;
@@ -227,24 +245,36 @@ isal_aes_cbc_dec_256(const void *in, const void *iv, const void *keys, void *out
 void
 aes_cbc_dec_128(void *in, uint8_t *IV, uint8_t *keys, void *out, uint64_t len_bytes)
 {
+        if (len_bytes == 0)
+                return;
+
         _aes_cbc_dec_128(in, IV, keys, out, len_bytes);
 }
 
 void
 aes_cbc_dec_192(void *in, uint8_t *IV, uint8_t *keys, void *out, uint64_t len_bytes)
 {
+        if (len_bytes == 0)
+                return;
+
         _aes_cbc_dec_192(in, IV, keys, out, len_bytes);
 }
 
 void
 aes_cbc_dec_256(void *in, uint8_t *IV, uint8_t *keys, void *out, uint64_t len_bytes)
 {
+        if (len_bytes == 0)
+                return;
+
         _aes_cbc_dec_256(in, IV, keys, out, len_bytes);
 }
 
 int
 aes_cbc_enc_128(void *in, uint8_t *IV, uint8_t *keys, void *out, uint64_t len_bytes)
 {
+        if (len_bytes == 0)
+                return 0;
+
         _aes_cbc_enc_128(in, IV, keys, out, len_bytes);
         return 0;
 }
@@ -252,6 +282,9 @@ aes_cbc_enc_128(void *in, uint8_t *IV, uint8_t *keys, void *out, uint64_t len_by
 int
 aes_cbc_enc_192(void *in, uint8_t *IV, uint8_t *keys, void *out, uint64_t len_bytes)
 {
+        if (len_bytes == 0)
+                return 0;
+
         _aes_cbc_enc_192(in, IV, keys, out, len_bytes);
         return 0;
 }
@@ -259,6 +292,9 @@ aes_cbc_enc_192(void *in, uint8_t *IV, uint8_t *keys, void *out, uint64_t len_by
 int
 aes_cbc_enc_256(void *in, uint8_t *IV, uint8_t *keys, void *out, uint64_t len_bytes)
 {
+        if (len_bytes == 0)
+                return 0;
+
         _aes_cbc_enc_256(in, IV, keys, out, len_bytes);
         return 0;
 }
